@@ -588,7 +588,12 @@ func (s *AbsfsNFS) CreateWithContext(ctx context.Context, dir *NFSNode, name str
 	if s.dirCache != nil {
 		s.dirCache.Invalidate(dir.path)
 	}
-	return s.Lookup(path)
+	node, err := s.Lookup(path)
+	if err != nil {
+		s.fs.Remove(path) // a failed request leaves nothing behind, as for the close and chmod failures above
+		return nil, err
+	}
+	return node, nil
 }
 
 // Remove implements the REMOVE operation
@@ -1002,7 +1007,12 @@ func (s *AbsfsNFS) Symlink(dir *NFSNode, name string, target string, attrs *NFSA
 	if s.dirCache != nil {
 		s.dirCache.Invalidate(dir.path)
 	}
-	return s.Lookup(path)
+	node, err := s.Lookup(path)
+	if err != nil {
+		s.fs.Remove(path) // a failed request leaves nothing behind
+		return nil, err
+	}
+	return node, nil
 }
 
 // Readlink implements the READLINK operation
